@@ -12,6 +12,8 @@ type World struct {
 	Features []string `json:"features,omitempty"`
 	// Probe marks a small world built to attribute a risky feature combination.
 	Probe string `json:"probe,omitempty"`
+	// NoTS: the TS / OpenAPI plugins are not run for this world even when the check has TS modes.
+	NoTS bool `json:"no_ts,omitempty"`
 }
 
 type File struct {
